@@ -362,6 +362,7 @@ func (m *Machine) step(t *Thread) {
 			m.goPanic(t, "assignment to entry in nil map", ins)
 			return
 		}
+		m.raceMap(t, mp, true, i)
 		m.mapStore(mp, m.get(f, i.Key), m.get(f, i.Value))
 		f.PC++
 	case *ssa.Next:
